@@ -58,6 +58,12 @@ func universe() []*Lit {
 		lStr(""), lStr("a"), lStr("1"), lStr("RED"), lStr("true"), lStr("hé \"q\" \\ \n"),
 		lStr("2020-01-02T03:04:05Z"), lStr("2020-01-02T03:04:05.123456789+07:00"),
 		lStr("2020-01-02 03:04:05Z"), lStr("2020-02-30T00:00:00Z"), lStr("2020-01-02T03:04:05+00:00"),
+		// RFC 3339 edges for DateTime (time.Time.UnmarshalText decides): leap second, years 0 and 9999,
+		// year 10000, extreme / invalid zone offsets, lower-case separators, 10 fraction digits, comma
+		lStr("2016-12-31T23:59:60Z"), lStr("0000-01-01T00:00:00Z"), lStr("9999-12-31T23:59:59.999999999Z"),
+		lStr("10000-01-01T00:00:00Z"), lStr("2020-01-02T03:04:05+23:59"), lStr("2020-01-02T03:04:05-00:00"),
+		lStr("2020-01-02T03:04:05+24:00"), lStr("2020-01-02t03:04:05z"), lStr("2020-01-02T03:04:05.1234567891Z"),
+		lStr("2020-01-02T03:04:05,5Z"), lStr("2020-01-02T24:00:00Z"),
 		lBool(true), lBool(false), lNull(),
 		lEnum("RED"), lEnum("GREEN"), lEnum("BLUE"), lEnum("PURPLE"),
 		lList(lInt(1)), lList(), lObj("a", lInt(1)),
@@ -71,8 +77,10 @@ var few = map[string][]*Lit{
 	"String":   {lStr("a"), lStr(""), lStr("RED"), lInt(1), lEnum("RED")},
 	"Boolean":  {lBool(true), lBool(false), lInt(1), lStr("true")},
 	"ID":       {lStr("id1"), lInt(5), lBig("9223372036854775808"), lFloat(10, -1), lBool(true)},
-	"DateTime": {lStr("2020-01-02T03:04:05Z"), lStr("2020-01-02T03:04:05.5-08:00"), lStr("yesterday"), lInt(1)},
-	"LongInt":  {lInt(1), lBig("9007199254740991"), lBig("9007199254740992"), lStr("1"), lBool(true)},
+	"DateTime": {lStr("2020-01-02T03:04:05Z"), lStr("2020-01-02T03:04:05.5-08:00"), lStr("9999-12-31T23:59:59.999999999Z"),
+		lStr("2016-12-31T23:59:60Z"), lStr("yesterday"), lInt(1)},
+	"LongInt": {lInt(1), lBig("9007199254740991"), lBig("-9007199254740991"), lBig("9007199254740992"),
+		lBig("-9223372036854775808"), lStr("1"), lBool(true)},
 	"Tok":      {lStr("t"), lStr(""), lInt(1)},
 	"Color":    {lEnum("RED"), lEnum("GREEN"), lEnum("BLUE"), lEnum("PURPLE"), lStr("RED"), lInt(7)},
 }
